@@ -27,19 +27,22 @@ def ctx_of(it):
     return it
 
 
-def make_oracle_fn(bits):
+def make_oracle_fn(bits, tok_ids):
+    """the predicate/assertion oracle of the K3 drivers: position, number, kind and the lookahead
+    (peek(0..2), peek_left(1)) as token ids; `la` are token names"""
     nb = len(bits)
 
-    def orc(salt, num, k):
+    def orc(salt, num, k, la):
         if nb == 0:
             return False
-        return bits[(k * 5 + num * 3 + salt) % nb] == '1'
+        p0, p1, p2, l1 = [tok_ids[x] for x in la]
+        return bits[(k * 5 + num * 3 + salt + p0 * 7 + p1 * 11 + p2 * 13 + l1 * 17) % nb] == '1'
     return orc
 
 
 def ref_parse(it, entry, toks, bits):
     ctx_of(it)
-    r = refparse.Ref(it['res']['dump'], it['tb'], make_oracle_fn(bits))
+    r = refparse.Ref(it['res']['dump'], it['tb'], make_oracle_fn(bits, it['pb'].tok_ids))
     return r.parse_with_trivia(entry, toks)
 
 
